@@ -31,6 +31,14 @@ ASSUMPTIONS = [
     "legitimately reject NaN volatility); such rejections are counted, scaling/resample poisons are used there",
     "'empty' (uninitialised memory) is only combined with models that ignore their input",
 ]
+ANCHORS = ['pfhedge.nn.modules.hedger:Hedger.compute_hedge',
+           'pfhedge.instruments.derivative.base:OptionMixin.max_moneyness',
+           'pfhedge.features.features:Barrier.get',
+           'pfhedge.features.features:UnderlierSpot.get',
+           'pfhedge.features.features:Spot.get',
+           'pfhedge.features.features:Volatility.get',
+           'pfhedge.features.features:Variance.get',
+           'pfhedge.features.features:Moneyness.get']
 DECIDING = ["hedge.prefix_invariant", "hedge.no_trade_at_maturity", "feature.prefix_invariant"]
 REQUIRED_BRANCHES = ["branch.stepwise", "branch.vectorised", "poison.nan", "poison.scale", "poison.resample", "grad.on", "grad.off"]
 
